@@ -19,7 +19,7 @@ RULE = ('(a) systems of 1-6 molecules, each selected or not in every order (sele
         'selected one and >= 2 selected molecules. (b) DSSP strings: every string over the 11-letter alphabet up to '
         'length 4 (quick) / 6 (thorough) and random helix-rich strings up to length 60, also pushed through '
         'AnnotateMartiniSecondaryStructures on a molecule. Non-trivial string = contains >= 2 helical runs of '
-        'different length class. distinct = distinct system shapes / strings.')
+        'different length class. distinct = distinct system shapes / strings. Also: residues sharing a number (insertion codes, or told apart by name only); a second sequence applied to the same molecule objects after residue identities were edited in place.')
 ASSUMPTIONS = ['residue order of a molecule = ascending lowest node key (the library\'s documented enumeration)',
                'an empty sequence with no selected molecule is a no-op; every other length mismatch must raise ValueError']
 MIN_HITS = {'quick': 20000, 'thorough': 1500000}
@@ -83,6 +83,15 @@ def gen_system(rnd):
         resids = rnd.sample(range(-3, 60), nres)
         if rnd.random() < 0.5:
             resids.sort()
+        # residues that share their number with the previous one: told apart by an insertion code (52, 52A) or by the name only
+        icodes = [None] * nres
+        same_number = []
+        for r in range(1, nres):
+            if rnd.random() < 0.15:
+                resids[r] = resids[r - 1]
+                same_number.append(r)
+                if rnd.random() < 0.7:
+                    icodes[r] = 'ABCDEFGHIJ'[r]
         atoms = []  # (key, residue index)
         slots = [r for r, s in enumerate(sizes) for _ in range(s)]
         if mode == 'interleaved':
@@ -94,7 +103,13 @@ def gen_system(rnd):
         resnames = [rnd.choice(PROTEIN) if (sel or selector == 'meta') else 'LIG' for _ in range(nres)]
         if selector == 'protein' and not sel:
             resnames = ['LIG'] * nres
-        mols.append({'sel': sel, 'atoms': atoms, 'resids': resids, 'resnames': resnames,
+        for r in same_number:
+            if icodes[r] is None:
+                # told apart by the residue name only: make sure it differs from every residue carrying the same number
+                taken = {resnames[q] for q in range(nres) if q != r and resids[q] == resids[r]}
+                resnames[r] = next(n_ for n_ in (PROTEIN if resnames[r] != 'LIG' else ['LIG', 'LI2', 'LI3', 'LI4', 'LI5', 'LI6', 'LI7', 'LI8', 'LI9'])
+                                   + ['XX%d' % r] if n_ not in taken)
+        mols.append({'sel': sel, 'atoms': atoms, 'resids': resids, 'resnames': resnames, 'icodes': icodes,
                      'chain': rnd.choice('AB'), 'nres': nres})
     sel_lengths = [m['nres'] for m in mols if m['sel']]
     total = sum(sel_lengths)
@@ -129,8 +144,9 @@ def build_system(case):
         mol = Molecule(force_field=ff)
         mol.meta['sel'] = m['sel']
         for n, (k, r) in enumerate(m['atoms']):
+            extra = {'insertion_code': m['icodes'][r]} if m.get('icodes') and m['icodes'][r] else {}
             mol.add_node(k, atomname='A%d' % n, resid=m['resids'][r], resname=m['resnames'][r], chain=m['chain'],
-                         secstruct='old', custom='old')
+                         secstruct='old', custom='old', **extra)
         system.add_molecule(mol)
     return system
 
@@ -227,6 +243,62 @@ def check_system(case):
                 wrong.append((i, k, 'unselected-touched', d.get(attr)))
     if wrong:
         return ('wrong-assignment', {'wrong': wrong[:6], 'n_wrong': len(wrong)}), feats, nontrivial, unsel_before_sel
+    if sel_idx and int(harness.h([case['seq'], 'again']), 16) % 3 == 0:
+        # second round on the SAME molecule objects: residue identities are edited in place (the node set does not change), then a
+        # fresh sequence is applied; it must land on the residues as they are now
+        import random
+        r_ = random.Random(int(harness.h([case['seq'], len(mols), 'edit']), 16))
+        case2 = copy.deepcopy(case)
+        mi = r_.choice(sel_idx)
+        m2 = case2['mols'][mi]
+        mol = system.molecules[mi]
+        op = r_.choice(['move-atom', 'move-atom', 'renumber', 'split'])
+        if op == 'move-atom' and m2['nres'] > 1:
+            ai = r_.randrange(len(m2['atoms']))
+            k, r0 = m2['atoms'][ai]
+            r1 = r_.choice([r for r in range(m2['nres']) if r != r0])
+            m2['atoms'][ai] = (k, r1)
+        elif op == 'split' and any(sum(1 for _, r in m2['atoms'] if r == q) > 1 for q in range(m2['nres'])):
+            q = r_.choice([q for q in range(m2['nres']) if sum(1 for _, r in m2['atoms'] if r == q) > 1])
+            ai = r_.choice([i for i, (_, r) in enumerate(m2['atoms']) if r == q])
+            m2['resids'].append(max(m2['resids']) + 7)
+            m2['resnames'].append(m2['resnames'][q])
+            m2['icodes'].append(None)
+            m2['atoms'][ai] = (m2['atoms'][ai][0], len(m2['resids']) - 1)
+        else:
+            op = 'renumber'
+            m2['resids'] = [x + 100 for x in m2['resids']]
+            m2['resids'].reverse()
+            m2['resnames'].reverse()
+            m2['icodes'].reverse()
+            m2['atoms'] = [(k, len(m2['resids']) - 1 - r) for k, r in m2['atoms']]
+        # residues that lost every atom disappear
+        used = sorted({r for _, r in m2['atoms']})
+        remap = {r: j for j, r in enumerate(used)}
+        m2['atoms'] = [(k, remap[r]) for k, r in m2['atoms']]
+        for f in ('resids', 'resnames', 'icodes'):
+            m2[f] = [m2[f][r] for r in used]
+        m2['nres'] = len(used)
+        for k, r in m2['atoms']:
+            d = mol.nodes[k]
+            d['resid'], d['resname'] = m2['resids'][r], m2['resnames'][r]
+            d.pop('insertion_code', None)
+            if m2['icodes'][r]:
+                d['insertion_code'] = m2['icodes'][r]
+        total2 = sum(case2['mols'][i]['nres'] for i in sel_idx)
+        case2['seq'] = ['s%d' % j for j in range(total2)]
+        status2, exp2 = ref_assign(case2)
+        feats['second_round_after_' + op] = 1
+        try:
+            AnnotateResidues(attr, case2['seq'], molecule_selector=selector).run_system(system)
+        except Exception as e:
+            if not harness.from_repo(e):
+                raise
+            return ('history/valid-sequence-rejected-after-edit', {'raised': repr(e), 'edit': op, 'residues_now': total2}), feats, nontrivial, unsel_before_sel
+        wrong = [(i, k, d.get(attr), exp2[(i, k)]) for i, mol_ in enumerate(system.molecules) if mols[i]['sel']
+                 for k, d in mol_.nodes(data=True) if d.get(attr) != exp2[(i, k)]]
+        if wrong:
+            return ('history/wrong-assignment-after-edit', {'wrong': wrong[:6], 'n_wrong': len(wrong), 'edit': op}), feats, nontrivial, unsel_before_sel
     return None, feats, nontrivial, unsel_before_sel
 
 
